@@ -273,7 +273,8 @@ def _gen_gsd(dcd):
     def gen(w, rng):
         ndim = rng.choice([2, 3])
         return {"args": {"recipe": {"subseed": rng.randrange(1 << 40), "ndim": ndim, "N": rng.randint(2, 9), "T": rng.randint(1, 3),
-                                    "K": rng.randint(1, 3)}, "ndim": ndim}}
+                                    "K": rng.randint(1, 3), "nvary": (not dcd) and rng.random() < 0.3, "grow": (not dcd) and rng.random() < 0.2,
+                                    "share_typeid": rng.random() < 0.4, "boxvary": rng.random() < 0.3}, "ndim": ndim}}
     return gen
 
 
@@ -293,7 +294,10 @@ Adapter("read_gsd_dcd", "readers", "reader.gsd_reader_helper.read_gsd_dcd", gen=
 
 
 def _gen_log(w, rng):
-    return {"args": {"recipe": {"subseed": rng.randrange(1 << 40), "nsec": rng.randint(1, 3), "tail": "none", "maxrows": 5},
+    return {"args": {"recipe": {"subseed": rng.randrange(1 << 40), "nsec": rng.randint(1, 3), "maxrows": 5,
+                                "tail": rng.choice(["none", "none", "full-rows", "partial-row"]), "nonfinite": rng.random() < 0.3,
+                                "unicode": rng.random() < 0.3, "crlf": rng.random() < 0.15,
+                                "crashed": [0] if rng.random() < 0.2 else []},
                      "filename": rng.choice(["log_a.lammps", "log_b.lammps"])}}
 
 
@@ -301,7 +305,7 @@ def _call_log(w, op, kw):
     from PyMatterSim.reader.simulation_log import read_lammpslog
     from worlds.c19 import make_log
     text = make_log(kw["recipe"])[0]
-    with simio.real_open(kw["filename"], "w", encoding="utf-8") as f:      # stub LAMMPS peer
+    with simio.real_open(kw["filename"], "w", encoding="utf-8", newline="") as f:      # stub LAMMPS peer
         f.write(text)
     return read_lammpslog(kw["filename"])
 
